@@ -104,6 +104,21 @@ theorem qinv_bound (s : St) (h : QInv s) (hv : s.capViolated = false) (he : s.er
     nreq s.messages ≤ Gen.C05.parserMaxMsgQueueSize :=
   Nat.le_trans ((h hv).2 he) (h hv).1
 
+/-- **Unread body, lingering disabled** (`lingering_time = 0`): a handler answers a keep-alive POST without reading its
+body while the body is still incomplete — the loop must not go on with the parser inside that body: `close()` is
+called and the transport is closed right after the response (instance checked by the kernel; the general rule is the
+`.afterLinger` continuation of `startRun`, tied to the code by correspondence on the lingering family). -/
+theorem unread_body_without_linger_closes :
+    let s := run (init { lingerMs := 0 } [[.fin .ok]] [{ msgs := [{ hasPayload := true, chunks := 1 }] }]) [.data 120, .tick]
+    s.close = true ∧ s.tClosing = true ∧ s.spc = .done ∧ s.wire.reverse = [.hdr 0 200 false, .eof 0] := by
+  decide +kernel
+
+/-- … whereas with lingering enabled the loop parks in the lingering read (timer armed), transport open. -/
+theorem unread_body_with_linger_waits :
+    let s := run (init { lingerMs := 10240 } [[.fin .ok]] [{ msgs := [{ hasPayload := true, chunks := 1 }] }, {}]) [.data 120, .tick]
+    s.close = false ∧ s.tClosing = false ∧ s.spc = .linger 10240 ∧ s.lingerTimer.isSome = true := by
+  decide +kernel
+
 /-! ## counterexamples: deviations of the unchanged code, reproduced on the model -/
 
 /-- two plain pipelined GET requests in one read -/
